@@ -51,16 +51,16 @@ theorem families_frac {K : Type} [Field K] [CharZero K] {o : Ops K} (ho : FieldL
 /-- sRGB curves (tree mode): the traced decision tree is the documented piecewise formula; component 3 of
 the vec4 overloads is the leaf `alpha` -/
 theorem curves_correct {R : Type} [CommRing R] {o : Ops R} (ho : RingLike o)
-    (f : Family) (hf : f ∈ families) (htm : f.treeMode = true) (hk : f.kind = .poly)
+    (f : Family) (hf : f ∈ families) (htm : f.treeMode = true) (hw : f.treeWalk = false) (hk : f.kind = .poly)
     (ks : List Nat) (hks : ks ∈ f.keys) (j : Nat) (hj : j < f.nOut ks) (env : Nat → R) :
     ((lookup f.unit ks).out j).eval o env = (f.specT ks j).eval o env :=
-  Family.tree_poly_sound ho (all_ok f hf) htm hk hks hj env
+  Family.tree_poly_sound ho (all_ok f hf) htm hw hk hks hj env
 
 theorem srgb_alpha_untouched {R : Type} [CommRing R] {o : Ops R} (ho : RingLike o) (env : Nat → R) :
     ((lookup "lin2srgb" [4]).out 3).eval o env = env 3 ∧ ((lookup "srgb2lin" [4]).out 3).eval o env = env 3 := by
   constructor
-  · exact Family.tree_poly_sound ho (all_ok f_lin2srgb (by simp [families])) rfl rfl (ks := [4]) (by simp [f_lin2srgb, mkCurve]) (j := 3) (by decide) env
-  · exact Family.tree_poly_sound ho (all_ok f_srgb2lin (by simp [families])) rfl rfl (ks := [4]) (by simp [f_srgb2lin, mkCurve]) (j := 3) (by decide) env
+  · exact Family.tree_poly_sound ho (all_ok f_lin2srgb (by simp [families])) rfl rfl rfl (ks := [4]) (by simp [f_lin2srgb, mkCurve]) (j := 3) (by decide) env
+  · exact Family.tree_poly_sound ho (all_ok f_srgb2lin (by simp [families])) rfl rfl rfl (ks := [4]) (by simp [f_srgb2lin, mkCurve]) (j := 3) (by decide) env
 
 /-- non-vacuity -/
 example : (lookup "ycocgr_rt" [0]).ty = .i32 ∧ (lookup "ycocgr_rt" [1]).ty = .u32 ∧
